@@ -106,7 +106,9 @@ def sc5(F, R):
                 n += 1
                 txt = dict(ctor.expr_rvalue(st["rv"], site)[3]).get("txt")
                 names = [x[1].split("::")[-1] for x in walk(txt) if x[0] == "call"] if txt is not None else ["?"]
-                bad = [x for x in names if x in TEXT_ALTERING]
+                # leading white space of the whole script is dropped by the command splitter anyway (every command is trimmed, and a
+                # comment needs its `#`); the *end* of the text is different: the line end of a final comment is what ends it
+                bad = [x for x in names if x in TEXT_ALTERING and x != "trim_start"]
                 from_param = txt is not None and mentions(txt, lambda x: x[0] == "param")
                 if bad or not from_param:
                     R.bad("SC5", "SC5/Script::from_str/text-altered", ctor.where(site),
